@@ -12,6 +12,7 @@ import asyncio
 import gc
 import heapq
 import itertools
+import os
 import sys
 import threading
 import time as _time
@@ -47,6 +48,7 @@ class _Clock:
         self.offset_ns = 0
         self.uuid_counter = itertools.count(1)
         self.random_value = 0.0  # → HIGH, MEDIUM, LOW order in redis utils
+        self.local_offset_us = 0  # naive local time = UTC + this (see local_zone)
 
     def reset(self, loop: "VLoop | None") -> None:
         self.loop = loop
@@ -68,8 +70,11 @@ class _Clock:
 
     def now(self, tz=None):
         if tz is None:
-            return _EPOCH_NAIVE + timedelta(microseconds=self.us())
+            return _EPOCH_NAIVE + timedelta(microseconds=self.us() + self.local_offset_us)
         return (_EPOCH_AWARE + timedelta(microseconds=self.us())).astimezone(tz)
+
+    def utcnow(self):
+        return _EPOCH_NAIVE + timedelta(microseconds=self.us())
 
     def uuid4(self):
         return _uuid.UUID(int=(0xABCD << 100) + next(self.uuid_counter))
@@ -95,7 +100,7 @@ class VDateTime(_real_datetime, metaclass=_VDTMeta):
 
     @classmethod
     def utcnow(cls):
-        return CLOCK.now(None)
+        return CLOCK.utcnow()
 
     @classmethod
     def today(cls):
@@ -108,6 +113,33 @@ class VDateTime(_real_datetime, metaclass=_VDTMeta):
     @classmethod
     def fromtimestamp(cls, t, tz=None):
         return _real_datetime.fromtimestamp(t, tz)
+
+
+class local_zone:
+    """The process's local time zone is part of the environment the harness owns: inside this context
+    naive local time is UTC + `hours` - for the virtual clock and (TZ + tzset) for the conversions the
+    C library does (`naive.timestamp()`, `datetime.fromtimestamp()`)."""
+
+    def __init__(self, hours: int):
+        self.hours = hours
+
+    def __enter__(self):
+        self.old = os.environ.get("TZ")
+        if self.hours:
+            os.environ["TZ"] = f"VRT{-self.hours:+d}"
+            _time.tzset()
+            CLOCK.local_offset_us = self.hours * 3600 * 10 ** 6
+        return self
+
+    def __exit__(self, *exc):
+        if self.hours:
+            if self.old is None:
+                os.environ.pop("TZ", None)
+            else:
+                os.environ["TZ"] = self.old
+            _time.tzset()
+            CLOCK.local_offset_us = 0
+        return False
 
 
 _seams_installed = False
